@@ -63,6 +63,11 @@ def enc_jvalue(v):
 
 def build_driver(defn, log, tasklog, router=None, bases=None):
     """a real Driver subclass + instance from the JSON definition, with instrumented handlers"""
+    return make_class(defn, log, tasklog, bases)(router=router)
+
+
+def make_class(defn, log, tasklog, bases=None):
+    """the Driver subclass for a JSON definition (groups become class attributes, picked up by DriverMeta)"""
     from indi.device import Driver, events, properties
 
     dct = {"name": defn["name"]}
@@ -94,8 +99,7 @@ def build_driver(defn, log, tasklog, router=None, bases=None):
                 kw["rule"] = v.get("rule", "OneOfMany")
             vectors[v["key"]] = getattr(properties, vcls_name)(v["name"], **kw)
         dct[g["key"]] = properties.Group(g["name"], enabled=g.get("enabled", True), vectors=vectors)
-    cls = type("Dev_" + defn["name"], tuple(bases or (Driver,)), dct)
-    return cls(router=router)
+    return type("Dev_" + defn["name"], tuple(bases or (Driver,)), dct)
 
 
 def make_handler(h, kind, log, tasklog):
@@ -329,7 +333,7 @@ def oracle_queries(case, d, dev_line, obs, outcome):
 # generators
 
 FORMATS = ["%f", "%.2f", "%5.2f", "%d", "%.3m", "%.6m", "%10.9m", "%.0f", "%08.3f", "%+.1f", "%.5m", "%.8m"]
-TEXTS = ["x", "", "hello world", "a<b&c>d", 'q"t', "é𝄞", " padded ", "line1\nline2", "On", "12.5"]
+TEXTS = ["x", "", "hello world", "a<b&c>d", 'q"t', "é𝄞", " padded ", " ", "\t", "line1\nline2", "On", "12.5"]
 STATES = ["Idle", "Ok", "Busy", "Alert"]
 RULES = ["OneOfMany", "AtMostOne", "AnyOfMany"]
 KINDS = ["text", "number", "switch", "light", "blob"]
